@@ -33,6 +33,11 @@ ASSUMPTIONS = ['file bytes and ids restricted to printable ASCII (plus blank/tab
                'ids contain none of , | ; : > (the reader derives the id with IDPATTERN)',
                'ids distinct over the whole file set; dbm mode: id != "header" (F16) and no stored line length >= 65536 (F15)']
 NO_SHRINK = False
+MODELLED_FUNCS = {'sugar/index/fastaindex.py': ['_iter_fasta_index', '_extract_seqdata', '_int', '_pack', '_unpack',
+                                               'FastaIndex.add', 'FastaIndex._search', 'FastaIndex.iter', 'FastaIndex.iter_fasta',
+                                               'FastaIndex.iter_fastaheader', 'FastaIndex.get', 'FastaIndex.get_fasta',
+                                               'FastaIndex.get_fastaheader', 'FastaIndex.__len__'],
+                  'sugar/_io/fasta.py': ['iter_fasta', '_create_bioseq', '_id_from_header']}
 
 MODES = {'binary': 0, 'db': 1}
 SEQ_ALPHA = 'ACGTNacgtnRYKM*-.'
@@ -149,8 +154,9 @@ def run_index(case, d):
             else:
                 # one add call per file, in the registration order of the case (file k is named f<k>.fasta, so any order
                 # other than 0,1,2 registers the files against the alphabetical order of their names)
+                # addmode 3: the same without force (a non-empty binary index refuses the second call)
                 for pos, k in enumerate(order_of(case)):
-                    idx.add(paths[k], silent=True, force=(pos > 0 and mode == 'binary'))
+                    idx.add(paths[k], silent=True, force=(pos > 0 and mode == 'binary' and am == 2))
         except Exception as e:
             return [sums, canon_exc(e)]
         if case['reopen']:
@@ -370,7 +376,7 @@ def nontrivial(case, got):
 def histkey(case, got):
     o = order_of(case)
     ks = ['mode=' + mode_of(case), 'registration=' + ('name-order' if o == sorted(o) else 'reverse' if o == sorted(o, reverse=True) else 'other'), 'reopen=%s' % case['reopen'], 'files=%d' % len(case['files']), 'kind=' + case.get('_kind', '?'),
-          'add=' + ['glob', 'list', 'one-call-per-file'][case.get('addmode', 0) % 3]]
+          'add=' + ['glob', 'list', 'one-call-per-file', 'one-call-per-file-noforce'][case.get('addmode', 0) % 4]]
     if isinstance(got, list) and isinstance(got[1], dict):
         ks.append('add-raises=' + got[1]['e'])
     for fl in _flags(case) or ['raw']:
@@ -594,6 +600,102 @@ def extra_checks(rng, tier, cov):
         cov['witness_' + w['_kind'][-3:] + '_still_fails'] = bool(sp)
         if sp:
             yield {'case': w, 'impl': v, 'spec': sp, 'noshrink': True}
+    # add(..., seek=N) (fastaindex.py:52-55; not modelled): records starting at or after byte N are indexed, with the same answers
+    nseek = 0
+    for k in range(40 if tier == 'thorough' else 4):
+        c = rand_case(rng, big=False)
+        c['files'] = [f for f in c['files'] if len(f['recs']) >= 2][:1]
+        if not c['files'] or any(r['id'] == 'header' for r in c['files'][0]['recs']):
+            continue
+        f = c['files'][0]
+        recs = _records(dict(c, files=[f]))
+        cut = rng.randrange(1, len(f['recs']))
+        seek = recs[f['recs'][cut]['id']][1]
+        for mode in ('binary', 'db'):
+            d = tempfile.mkdtemp(prefix='C09-', dir='/tmp')
+            try:
+                os.environ['XDG_CACHE_HOME'] = os.path.join(d, 'cache')
+                p = os.path.join(d, 'f0.fasta')
+                with open(p, 'wb') as fh:
+                    fh.write(render_file(f))
+                idx = sugar.FastaIndex(os.path.join(d, 'i.sugarindex'), create=True, mode=mode)
+                idx.add(p, seek=seek, silent=True)
+                want = [r['id'] for r in f['recs'][cut:]]
+                got = []
+                for r in f['recs'][cut:]:
+                    s = idx.get((r['id'], 1, 7))[0]
+                    got.append(s.id)
+                    if str(s) != rec_seq(r)[1:7].upper():
+                        got.append('wrong residues for ' + r['id'])
+                if len(idx) != len(want) or got != want:
+                    yield {'case': dict(c, db=(mode == 'db')), 'impl': [len(idx), got],
+                           'spec': 'add(seek=%d): expected records %r, got len %d and %r' % (seek, want, len(idx), got)}
+                if mode == 'db':
+                    idx.db.close()
+                nseek += 1
+            finally:
+                shutil.rmtree(d, ignore_errors=True)
+    cov['seek_checks'] = nseek
+    # progress bar branch of the scanner (fastaindex.py:44-47,79-86): tqdm is not installed here, so a stand-in is put into
+    # the module attribute for one add() call without silent; the advertised total and the summed updates must be the file
+    # size, one update per record, and the index must answer as usual
+    import sugar.index.fastaindex as FI
+
+    class _Bar:
+        log = []
+
+        def __init__(self, desc=None, total=None, **kw):
+            self.total, self.n, self.k, self.closed = total, 0, 0, False
+            _Bar.log.append(self)
+
+        def update(self, n):
+            self.n += n
+            self.k += 1
+            return self.k % 2 == 0
+
+        def set_description(self, d):
+            pass
+
+        def close(self):
+            self.closed = True
+    c = rand_case(rng, big=False)
+    f = [g for g in c['files']][0]
+    if not any(r['id'] == 'header' for r in f['recs']):
+        d = tempfile.mkdtemp(prefix='C09-', dir='/tmp')
+        old = FI.tqdm
+        try:
+            os.environ['XDG_CACHE_HOME'] = os.path.join(d, 'cache')
+            p = os.path.join(d, 'f0.fasta')
+            data = render_file(f)
+            with open(p, 'wb') as fh:
+                fh.write(data)
+            FI.tqdm = _Bar
+            idx = sugar.FastaIndex(os.path.join(d, 'i.sugarindex'), create=True, mode='binary')
+            idx.add(p)
+            FI.tqdm = old
+            bar = _Bar.log[-1]
+            r0 = f['recs'][-1]
+            got = str(idx.get(r0['id'])[0])
+            if not (bar.total == len(data) and bar.n == len(data) and bar.k == len(f['recs']) and bar.closed
+                    and len(idx) == len(f['recs']) and got == rec_seq(r0).upper()):
+                yield {'case': dict(c, files=[f], db=False), 'impl': [bar.total, bar.n, bar.k, bar.closed, len(idx), got],
+                       'spec': 'add() with a progress bar: total/updates must equal the file size %d, one update per record' % len(data)}
+            cov['progress_bar_check'] = 1
+        finally:
+            FI.tqdm = old
+            shutil.rmtree(d, ignore_errors=True)
+    # reader branches the index never reaches (its text always starts with '>'): blank line / comment before the first header
+    from sugar import BioBasket
+    cm = []
+    b = BioBasket.fromfmtstr('\n;c\n>a x\nAC\n;d\nGT\n', fmt='fasta', comments=cm)
+    ok = len(b) == 1 and str(b[0]) == 'ACGT' and b[0].id == 'a' and cm == [';c\n', ';d\n']
+    try:
+        BioBasket.fromfmtstr('x\n>a\nAC\n', fmt='fasta')
+        ok = False
+    except ValueError:
+        pass
+    if not ok:
+        yield {'case': dict(F16_WITNESS, db=False, _kind='reader-branches', files=[]), 'impl': [len(b), cm], 'spec': 'FASTA reader: blank/comment lines before the first header', 'noshrink': True}
     nrel = 0
     for k in range(300 if tier == 'thorough' else 40):
         c = rand_case(rng, big=(k % 5 == 0))
@@ -634,22 +736,28 @@ def extra_checks(rng, tier, cov):
     cov['relational_filesets'] = nrel
 
 
-LEVEL_TEXT = ('Machine-checked Coq theorems about a line-by-line Gallina model of sugar/index/fastaindex.py: slice_through_wrap (for every '
-              'line width, newline sequence and residue string the bytes [off i, off j) of the wrapped text, off x = x + x//w*|nl|, '
-              'contain exactly s[i:j]); pack/unpack round trip of dbm values (and the F15 overflow as a refuted half); extract_record: for '
-              'every well-formed record anywhere in a file (LF or CRLF, any width, followed by nothing or the next record) with the '
-              'index entry the scanner stores, the header query returns the header line, the whole-record query the record text and '
-              'every range query (also open ended, end beyond the record, start beyond the record) the header plus bytes whose '
-              'newline-free content is s[i:j]; the same for an arbitrary byte region of a record and, concretely, for the last record of a file without final newline; '
-              'the scanner and the end-to-end answer of get are proved by complete enumeration for the 960 files of the small box. '
-              'The model is tied to the real FastaIndex (both back ends, same object and reopened index, temp directories) by '
-              'differential testing on every run; binary = dbm = reopened = sugar.read(file)[id][i:j] is checked relationally.')
-LEVEL_NOTE = ('Partial: the unbounded scan_index theorem (scanner yields one entry per record for every well-formed file) and the '
-              'parse of the extracted text by the FASTA reader are proved only on the enumerated box and otherwise checked by the '
-              'correspondence; mmap, dbm, binarysearchfile and the header persistence format are trusted and only compared '
-              'relationally. Open findings excluded from the domain predicate wf_C09: F15 (dbm line length >= 65536), F16 (dbm id '
-              '"header"). All histories (one add call, one add call per file with force=True, reopened index) are inside the domain '
-              '(binary_update_header repaired in /repo 056c3d1, witness in the corpus). Domain: printable ASCII, '
-              'ids without , | ; : >, residues without > and ;, at least one record per file, distinct ids. '
+LEVEL_TEXT = ('Machine-checked Coq theorems (all unbounded unless said otherwise) about a line-by-line Gallina model of '
+              'sugar/index/fastaindex.py and of the FASTA reader as FastaIndex.get uses it: slice_through_wrap (bytes [off i, off j) of '
+              'the wrapped text contain exactly s[i:j]); pack/unpack round trip of dbm values; scan_index: for every non-empty list of '
+              'well-formed records, with or without final newline (also a last record that is a bare header), the scanner yields '
+              'exactly one entry per record with its offset and line length; extract_record: header / whole-record / range queries '
+              '(open ends, end clipped, start beyond the end) return the header line, the record text, and bytes whose newline-free '
+              'content is s[i:j]; parse_extracted: the reader turns that text into (id, header, upper residues); get_record and '
+              'index_get_spec: end to end on the model, for any set of well-formed files (final newline), any number of records, '
+              'widths, LF/CRLF, distinct ids, both back ends, len(index) = number of records and every record of every file answers '
+              'get_fastaheader / get_fasta / get / get(id,i,j) with upper(s[i:j]); modes_agree: binary and dbm answers are equal for '
+              'every query; file numbers index the registration list. The model is tied to the real FastaIndex (both back ends, '
+              'same object and reopened, registration against name order, temp directories) by differential testing on every run; '
+              'binary = dbm = reopened = sugar.read(file)[id][i:j] is checked relationally.')
+LEVEL_NOTE = ('Proved per component but not composed into the index-level theorem: files without final newline (scanner, and '
+              'header/whole/range get on the last record are proved; the composition is proved only on the enumerated 960-file box). '
+              'Tested only: that sugar.read of the whole file gives the residues s the theorems speak about (extra_checks against '
+              'sugar.read), the storage back ends mmap/dbm/binarysearchfile, header persistence and reopening (relational checks), '
+              'add(seek=N) (exercised relationally, not modelled). Open findings excluded from wf_C09: F15 (dbm line length >= 65536), '
+              'F16 (dbm id "header"). All histories (one add call, one add call per file with force=True in any registration order, '
+              'reopened index) are inside the domain. Domain: printable ASCII, ids without , | ; : >, residues without > and ;, at '
+              'least one record per file, distinct ids. Statement coverage of the modelled functions in the quick tier: all '
+              'statements of all modelled functions are executed (the tqdm progress-bar branch of the scanner through a stand-in put '
+              'into the module attribute, since tqdm is not installed here). '
               'All theorems closed under the global context (no axioms).')
 TECHNIQUE = 'Coq 8.16 proof (structural induction + lia/nia, finite box by vm_compute) + model/code differential correspondence'
